@@ -57,6 +57,14 @@ def load_attr(eng, obj, name, st, line=0):
             yield st, getattr(obj, "name", "f")
             return
         raise Unsupported(f"attribute {name} of function value")
+    from .engine import SymDict
+
+    if isinstance(obj, SymDict):
+        # a dict display with symbolic keys / values
+        if name == "items":
+            yield st, Model("dict.items", lambda e, s, a, k, obj=obj: iter([(s, list(obj.items))]))
+            return
+        raise Unsupported(f"method {name} of a dict display holding symbolic items")
     if not isinstance(obj, SV):
         # concrete python object (module, class, constant ...)
         if isinstance(obj, type) and eng._is_repo_class(obj):
